@@ -6,17 +6,6 @@ import Paho.Spec.Wire
 namespace Paho.Driver
 open Paho
 
-/-- `k=v` tokens to an association list -/
-def kvs (ws : List String) : List (String × String) :=
-  ws.filterMap fun w =>
-    match w.splitOn "=" with
-    | k :: rest@(_ :: _) => some (k, "=".intercalate rest)
-    | _ => none
-
-def getS (m : List (String × String)) (k : String) (d : String := "-") : String := (m.lookup k).getD d
-def getN (m : List (String × String)) (k : String) (d : Nat := 0) : Nat := ((m.lookup k).bind (·.toNat?)).getD d
-def getI (m : List (String × String)) (k : String) (d : Int := 0) : Int := ((m.lookup k).bind (·.toInt?)).getD d
-def getB (m : List (String × String)) (k : String) : Bool := (m.lookup k) == some "1"
 def getHex (m : List (String × String)) (k : String) : Bytes := ((m.lookup k).bind parseHex).getD []
 def getOptHex (m : List (String × String)) (k : String) : Option Bytes :=
   match m.lookup k with
